@@ -47,6 +47,11 @@ def scenarios(tier, seed=0):
     for name in sub:
         spec = A.catalogue_spec(name, soil="SandyLoam", word="warm", off=True, start="2001/04/20", end="2001/12/30")
         yield {"kind": "spec", "spec": spec, "label": ["offseason", name]}
+    # bunded, ponded fields (submergence days, transpiration from the pond) from mid-season on
+    for name in (sub if tier == "quick" else [n for n in names if n in A.calendar_crop_names()]):
+        for soil in ("Clay", "Paddy"):
+            spec = A.catalogue_spec(name, soil=soil, word="warm", frm=[35, "wet"], field="bunds200", iwc="FC")
+            yield {"kind": "spec", "spec": spec, "label": ["bunds", name, soil]}
     # restrictive layer inside the root zone, every crop
     for name in (names if tier != "quick" else sub):
         spec = A.catalogue_spec(name, soil="custom3", dz="nonuni", word="warm", irr="smt")
